@@ -647,80 +647,7 @@ func checkC03(e *Engine, r *Report) {
 	})
 
 	r.Rule("R2", "PROVENANCE+EFFECT", "every sdk.Context passed to a keeper/helper from a method of the StateDB is a direct read of the current cache context; the original context is passed only to callees that reach no store write or event (committed-state reads)", 30, func() {
-		var ee *EffectEngine
-		nCur, nOrig := 0, 0
-		for _, f := range vmFuncs {
-			top := f
-			for top.Parent() != nil {
-				top = top.Parent()
-			}
-			if top.Signature.Recv() == nil || recvNamedOfSig(top.Signature) != sdbN {
-				continue
-			}
-			if IsGenerated(e.File(f.Pos())) {
-				continue
-			}
-			ord := map[string]int{}
-			allInstrs(f, false, func(_ *ssa.Function, _ *ssa.BasicBlock, in ssa.Instruction) {
-				c, ok := in.(ssa.CallInstruction)
-				if !ok {
-					return
-				}
-				cc := c.Common()
-				if _, isB := cc.Value.(*ssa.Builtin); isB {
-					return
-				}
-				args := cc.Args
-				if !cc.IsInvoke() {
-					if sc := cc.StaticCallee(); sc != nil && sc.Signature.Recv() != nil && len(args) > 0 {
-						args = args[1:]
-					}
-				}
-				for _, a0 := range args {
-					a, isCtx := ctxArg(a0)
-					if !isCtx {
-						continue
-					}
-					cn := calleeName(c)
-					ord[cn]++
-					key := fmt.Sprintf("%s › %s#%d", fnKey(f), cn, ord[cn]-1)
-					pos := e.Pos(c.Pos())
-					src := ctxSource(a, f)
-					switch src {
-					case "currentCtx":
-						nCur++
-						r.OK(key, pos, "current cache context")
-					case "originalCtx":
-						nOrig++
-						if strings.HasPrefix(fnKey(top), "x/evm/vm.cStateDb.ForTest_") {
-							r.OK(key, pos, "test accessor")
-							continue
-						}
-						if ee == nil {
-							ee = e.Effects()
-						}
-						var hits []EffectHit
-						for _, callee := range calleesAt(ee, f, c) {
-							if k := ee.sinkKind(callee); k != "" {
-								hits = append(hits, EffectHit{Kind: k, Sink: callee})
-								continue
-							}
-							hits = append(hits, ee.Reach(callee, EffectOpts{})...)
-						}
-						if len(hits) == 0 {
-							r.OK(key, pos, "original (committed) context passed to a write-free callee")
-						} else {
-							d, p := describeHits(hits)
-							r.Bad(key, pos, "the original context (committed state, never reverted) is passed to a callee that can write: "+d, p...)
-						}
-					default:
-						r.Bad(key, pos, "context argument is not a direct read of the StateDB's current context ("+src+"): writes bypass the snapshot stack and are not reverted with the frame")
-					}
-				}
-			})
-		}
-		r.Count("current_ctx_sites", nCur)
-		r.Count("original_ctx_sites", nOrig)
+		stateDbCtxDiscipline(e, r)
 	})
 
 	r.Rule("R3", "PROVENANCE", "custom precompile executors and their helpers pass only the execution environment's context (filled from the StateDB's GetCurrentContext()) or their own ctx parameter / a cache branch of it to other code; the environment is built only by the method dispatcher", 20, func() {
@@ -1278,4 +1205,85 @@ func endsInPanicRegion(b *ssa.BasicBlock) bool {
 		work = append(work, x.Succs...)
 	}
 	return pan
+}
+
+// stateDbCtxDiscipline (shared by C03-R2 and C08-R7): every sdk.Context a StateDB method hands to other code is a direct read
+// of the current cache context; the original (caller's, committed) context goes only to callees that reach no store write.
+func stateDbCtxDiscipline(e *Engine, r *Report) {
+	sdbN := e.Named(pkgEvmVM, "cStateDb")
+	vmFuncs := e.SrcFuncs(func(p string) bool { return p == pkgEvmVM })
+	var ee *EffectEngine
+	nCur, nOrig := 0, 0
+	for _, f := range vmFuncs {
+		top := f
+		for top.Parent() != nil {
+			top = top.Parent()
+		}
+		if top.Signature.Recv() == nil || recvNamedOfSig(top.Signature) != sdbN {
+			continue
+		}
+		if IsGenerated(e.File(f.Pos())) {
+			continue
+		}
+		ord := map[string]int{}
+		allInstrs(f, false, func(_ *ssa.Function, _ *ssa.BasicBlock, in ssa.Instruction) {
+			c, ok := in.(ssa.CallInstruction)
+			if !ok {
+				return
+			}
+			cc := c.Common()
+			if _, isB := cc.Value.(*ssa.Builtin); isB {
+				return
+			}
+			args := cc.Args
+			if !cc.IsInvoke() {
+				if sc := cc.StaticCallee(); sc != nil && sc.Signature.Recv() != nil && len(args) > 0 {
+					args = args[1:]
+				}
+			}
+			for _, a0 := range args {
+				a, isCtx := ctxArg(a0)
+				if !isCtx {
+					continue
+				}
+				cn := calleeName(c)
+				ord[cn]++
+				key := fmt.Sprintf("%s › %s#%d", fnKey(f), cn, ord[cn]-1)
+				pos := e.Pos(c.Pos())
+				src := ctxSource(a, f)
+				switch src {
+				case "currentCtx":
+					nCur++
+					r.OK(key, pos, "current cache context")
+				case "originalCtx":
+					nOrig++
+					if strings.HasPrefix(fnKey(top), "x/evm/vm.cStateDb.ForTest_") {
+						r.OK(key, pos, "test accessor")
+						continue
+					}
+					if ee == nil {
+						ee = e.Effects()
+					}
+					var hits []EffectHit
+					for _, callee := range calleesAt(ee, f, c) {
+						if k := ee.sinkKind(callee); k != "" {
+							hits = append(hits, EffectHit{Kind: k, Sink: callee})
+							continue
+						}
+						hits = append(hits, ee.Reach(callee, EffectOpts{})...)
+					}
+					if len(hits) == 0 {
+						r.OK(key, pos, "original (committed) context passed to a write-free callee")
+					} else {
+						d, p := describeHits(hits)
+						r.Bad(key, pos, "the original context (committed state, never reverted) is passed to a callee that can write: "+d, p...)
+					}
+				default:
+					r.Bad(key, pos, "context argument is not a direct read of the StateDB's current context ("+src+"): writes bypass the snapshot stack and are not reverted with the frame")
+				}
+			}
+		})
+	}
+	r.Count("current_ctx_sites", nCur)
+	r.Count("original_ctx_sites", nOrig)
 }
